@@ -293,7 +293,7 @@ def _replay_wrap(fn, tag, fmt):
 
 ASSUMES = ["A-PY", "A-INST", "A-DJ"]
 NOT_COVERED = [
-    "HtmlAttrsNode.render (defaults/attrs merge with dict.update and **kwargs) is covered only by the BOUNDED stand-in bounded#html_attrs_tag_emits_exactly_the_merged_attributes; _normalize_slot_fills (slot content escaped exactly once) is not under contract",
+    "HtmlAttrsNode.render (defaults/attrs merge with dict.update and **kwargs) is covered only by the BOUNDED stand-in bounded#html_attrs_tag_emits_exactly_the_merged_attributes",
     "HTML-parser reading of the output is represented by the two escaping lemmas only",
 ]
 
@@ -376,3 +376,5 @@ def _replay_html_attrs_render(model, ob):
         f = r["fails"][0]
         return {"confirmed": True, "function": "HtmlAttrsNode.render (through a real {% html_attrs %} tag)", "inputs": f["input"], "expected": f["expected"], "observed": f["observed"], "clause": f["clause"]}
     return {"confirmed": False}
+
+import contracts.c13c  # noqa: E402,F401  (_normalize_slot_fills: slot content escaped exactly once)
